@@ -53,7 +53,7 @@
 //     listed under "pure" are opaque values that are not traced; a call to a
 //     translated function that itself has opaque parameters is opaque too;
 //   - calls listed under "ignore" (mutex operations, logging, metrics) are
-//     dropped; methods listed under "identity" return their receiver;
+//     dropped, and so is a range loop whose body consists of such calls only; methods listed under "identity" return their receiver;
 //   - "recv_nonnil" models a pointer receiver as the struct itself (the
 //     assumption that callers never pass nil is stated where it is used);
 //   - with the spec-file option "refs": true, values of abstract type are not
@@ -1314,6 +1314,18 @@ func (c *fctx) stmts(list []ast.Stmt) string {
 			fail("call statement %s (not ignored, no trace)", c.show(x))
 		}
 		return "let tr := tr ++ [" + c.traceEntry(call) + "]\n" + c.stmts(rest)
+	case *ast.RangeStmt:
+		// a loop that only makes ignored calls (metrics, logging) has no translated effect
+		for _, b := range x.Body.List {
+			es, _ := b.(*ast.ExprStmt)
+			if es == nil {
+				fail("statement %s (a loop is translated only when its body consists of ignored calls)", c.show(s))
+			}
+			if call, ok := es.X.(*ast.CallExpr); !ok || !c.matches(c.spec.Ignore, call) {
+				fail("statement %s (a loop is translated only when its body consists of ignored calls)", c.show(s))
+			}
+		}
+		return c.stmts(rest)
 	case *ast.DeferStmt:
 		if c.matches(c.spec.Ignore, x.Call) {
 			return c.stmts(rest)
